@@ -66,7 +66,9 @@ func ConvertProtoHeaderToMetadata(
 				vals[i] = string(data)
 			}
 		}
-		asMetadata[key] = vals
+		// the same name may occur more than once (possibly in a different
+		// letter case): keep the values of every occurrence, in order
+		asMetadata[key] = append(asMetadata[key], vals...)
 	}
 	return asMetadata
 }
